@@ -1,7 +1,7 @@
 SPECIFICATION Spec
 CONSTANTS
   Objects = {"o1","o2","o3"}
-  Contents = {"shallow","nested","deeper","badscan","badrule","badvalue","usesT","typeT","orset","rich","typeU","blank","comment","typeC"}
+  Contents = {"shallow","badscan","badvalue","usesT","typeT","orset","rich","typeU","blank","typeC"}
   Ops = {"Check","Example","GetAST","OpenAPI"}
   Registers = TRUE
   MaxCalls = 6
